@@ -6,6 +6,7 @@
   specs all reach this code with `is_little()` as the only parameter, which is the model's `Bool`.
 -/
 import ElfVerif.Lemmas.Endian
+import ElfVerif.Generated.Accessors
 namespace Elf.C04
 
 /-- **Success is exactly "the bytes are there"**: a read of `w` bytes at `off` succeeds iff
@@ -99,6 +100,13 @@ theorem readTy_value (le : Bool) (t : Ty) (d : Slice) (off : Nat)
       (.ok (if t.signed then toSigned t.width (decode le d off t.width)
             else (decode le d off t.width : Int)), off + t.width) :=
   readTy_ok le t d off h1 h2
+
+/-- **The native specification matches the build target.**  `Gen.nativeArms` is regenerated on every run from the
+    `#[cfg(target_endian = …)] pub type NativeEndian = …` items of endian.rs: for either target byte order exactly one
+    arm is active, and it aliases the fixed specification of that same order. -/
+theorem native_is_target (targetLittle : Bool) :
+    (Gen.nativeArms.filter (fun a => a.1 == targetLittle)).map (·.2) = [targetLittle] := by
+  cases targetLittle <;> decide
 
 /-- Byte-order specifications: which `EI_DATA` values each accepts, and with which order
     (`true` = little).  Exhaustive over all 256 byte values. -/
